@@ -324,10 +324,24 @@ pub(crate) fn mode(entry: &VfsEntry, octal: u32, sym: &str) -> RvResult<u32> {
         return Ok(0);
     }
 
-    // Start from the entry's mode and apply symbolic manipulations
-    let mut mode = entry.mode();
+    // Start from the entry's mode and apply symbolic manipulations. Links are never altered.
+    sym_mode(entry.mode(), !entry.is_symlink() && entry.is_dir(), !entry.is_symlink() && entry.is_file(), sym)
+}
+
+/// Check the symbolic form without applying it
+pub(crate) fn check_sym(sym: &str) -> RvResult<()> {
+    if sym.is_empty() {
+        return Ok(());
+    }
+    sym_mode(0, false, false, sym).map(|_| ())
+}
+
+// Apply the symbolic form to the `mode` of a directory, of a file or of neither (validation only)
+fn sym_mode(mut mode: u32, dir: bool, file: bool, sym: &str) -> RvResult<u32> {
     let mut group = 0;
     let mut op = '0';
+    let mut matched = false; // the current clause targets this entry
+    let mut done = false; // the current clause is complete
     let mut chars: Vec<char> = sym.chars().rev().collect();
 
     let mut state = State::Target;
@@ -337,16 +351,24 @@ pub(crate) fn mode(entry: &VfsEntry, octal: u32, sym: &str) -> RvResult<u32> {
                 group = 0; // reset group for next chmod
                 op = '0'; // reset op for next chmod
 
+                done = false; // a new clause begins
+
+                // One or more target letters followed by a colon. A clause that doesn't target this
+                // entry is skipped rather than ending the evaluation: later clauses still apply.
+                matched = true;
+                let mut letters = 0;
                 loop {
-                    if c != 'd' && c != 'f' && c != 'a' && c != ':' {
-                        return Err(VfsError::InvalidChmodTarget(sym.to_string()).into());
+                    match c {
+                        'a' => matched &= dir || file,
+                        'd' => matched &= dir,
+                        'f' => matched &= file,
+                        ':' if letters > 0 => {
+                            state = State::Group;
+                            break;
+                        },
+                        _ => return Err(VfsError::InvalidChmodTarget(sym.to_string()).into()),
                     }
-                    if entry.is_symlink() || (c == 'd' && !entry.is_dir()) || (c == 'f' && !entry.is_file()) {
-                        return Ok(mode); // target mismatch so just return the original mode
-                    } else if c == ':' {
-                        state = State::Group;
-                        break;
-                    }
+                    letters += 1;
                     c = _pop(&mut chars, sym)?;
                 }
             },
@@ -403,13 +425,23 @@ pub(crate) fn mode(entry: &VfsEntry, octal: u32, sym: &str) -> RvResult<u32> {
                 }
 
                 // Process permission
-                match op {
-                    '-' => mode &= !(group & perm),
-                    '+' => mode |= group & perm,
-                    _ => mode = (!group & mode) | (group & perm),
+                if matched {
+                    match op {
+                        '-' => mode &= !(group & perm),
+                        '+' => mode |= group & perm,
+                        _ => mode = (!group & mode) | (group & perm),
+                    }
                 }
+
+                // Complete unless a comma announced another clause
+                done = state == State::Perms;
             },
         }
+    }
+
+    // All segments are required: the expression has to end with a complete clause
+    if !done {
+        return Err(VfsError::InvalidChmod(sym.to_string()).into());
     }
 
     Ok(mode)
